@@ -72,7 +72,16 @@ def check(repo, tier="quick"):
 
     m = repo.mod("symbol_re")
     where_fa = "%s:NFA.from_ast" % m.rel
-    gadgets, dead = nfa_model.extract_gadgets(repo)
+    try:
+        gadgets, dead = nfa_model.extract_gadgets(repo)
+    except AnalysisError as e:
+        if "NFA.from_ast[" in str(e) and "anchor vanished" not in str(e):
+            # a branch of the construction contains something that is not part of building the gadget (node creation,
+            # sub-automaton construction, edge insertion, return): the gadget proof obligation cannot be formed, and a
+            # shortcut or extra condition inside a construction arm changes the language for the patterns it applies to
+            res.check(False, "C18.a", "from_ast:construction-arms-only-build-gadgets", "vc2_conformance/symbol_re.py:NFA.from_ast", "%s -- every arm of NFA.from_ast must consist of node creations, recursive constructions of its sub-expressions (each exactly once), add_transition calls and the return of the (start, final) pair" % e, by="")
+            return res
+        raise
     res.info["gadgets_extracted"] = sorted(gadgets)
     res.info["dead_duplicate_branches"] = dead
     for kind in ("eps", "sym", "cat", "alt", "star"):
@@ -196,10 +205,12 @@ def simulation_shape(repo, res, m):
     matcher = m.classes.get("Matcher")
     if node is None or matcher is None:
         raise AnalysisError("anchor vanished: NFANode / Matcher")
-    # follow: iterates the closure, then the symbol edges of each closure member
+    # follow: iterates the closure, then the symbol edges of each closure member; a destination is suppressed only if
+    # that very node was reported before
     fo = _method(node, "follow")
     sym = fo.args.args[1].arg
     ok = False
+    dedup_ok = True
     for loop in ast.walk(fo):
         if isinstance(loop, ast.For) and isinstance(loop.iter, ast.Call) and dotted(loop.iter.func) == "self.equivalent_nodes":
             v = dotted(loop.target)
@@ -208,7 +219,18 @@ def simulation_shape(repo, res, m):
                     t = norm(inner.iter)
                     if t.startswith("%s.transitions" % v) and sym in [n.id for n in ast.walk(inner.iter) if isinstance(n, ast.Name)]:
                         ok = any(isinstance(y, (ast.Yield,)) for y in ast.walk(inner)) or any(isinstance(c, ast.Call) and isinstance(c.func, ast.Attribute) and c.func.attr in ("add", "append") for c in ast.walk(inner))
+                        nb = dotted(inner.target)
+                        for i_ in ast.walk(inner):
+                            if isinstance(i_, ast.If) and any(isinstance(y, ast.Yield) for y in ast.walk(i_)):
+                                tt = i_.test
+                                good = isinstance(tt, ast.Compare) and len(tt.ops) == 1 and isinstance(tt.ops[0], ast.NotIn) and dotted(tt.left) == nb
+                                adds = [c for c in ast.walk(i_) if isinstance(c, ast.Call) and isinstance(c.func, ast.Attribute) and c.func.attr == "add"]
+                                good = good and all(len(c.args) == 1 and dotted(c.args[0]) == nb for c in adds)
+                                dedup_ok = dedup_ok and good
+                        if len(inner.body) != 1 and not all(isinstance(b, (ast.If, ast.Expr)) for b in inner.body):
+                            dedup_ok = False
     res.check(ok, "C18.c", "follow:closure-then-step", "%s:NFANode.follow" % m.rel, "follow() does not step on `symbol` from every member of self.equivalent_nodes()", by="for node in self.equivalent_nodes(): for n in node.transitions[symbol]")
+    res.check(ok and dedup_ok, "C18.c", "follow:suppresses-only-repeated-nodes", "%s:NFANode.follow" % m.rel, "follow() may leave out a destination only because that same node has already been reported (`if neighbour not in visited: yield neighbour; visited.add(neighbour)`): merging destinations by any other key (e.g. the symbols they offer next) drops live alternatives that differ later", by="dedup by node identity only")
     # equivalent_nodes: worklist over transitions[None], includes self
     eq = _method(node, "equivalent_nodes")
     txt = norm(eq)
